@@ -125,3 +125,13 @@ Proof.
   - inversion Hin; subst. exists 0%nat. split; [reflexivity|]. rewrite Nat.add_0_r. exact Ec.
   - destruct (IH (S i) l E p v Hin) as (j & Hj & Hc). exists (S j). split; [exact Hj|]. replace (i + S j)%nat with (S i + j)%nat by lia. exact Hc.
 Qed.
+Lemma cw_enumerate_conv_positions (V : Type) (conv : nat -> option V) : forall ps i pvs,
+  cw_enumerate_conv V conv i ps = Some pvs ->
+  forall p v, In (p, v) pvs -> exists j, nth_error ps j = Some p /\ conv (i + j)%nat = Some v.
+Proof.
+  induction ps as [|q r IH]; intros i pvs H p v Hin; cbn [cw_enumerate_conv] in H; [inversion H; subst; destruct Hin|].
+  destruct (conv i) as [w|] eqn:Ec; [|discriminate]. destruct (cw_enumerate_conv V conv (S i) r) as [l|] eqn:E; [|discriminate].
+  inversion H; subst pvs. destruct Hin as [Hin|Hin].
+  - inversion Hin; subst. exists 0%nat. split; [reflexivity|]. rewrite Nat.add_0_r. exact Ec.
+  - destruct (IH (S i) l E p v Hin) as (j & Hj & Hc). exists (S j). split; [exact Hj|]. replace (i + S j)%nat with (S i + j)%nat by lia. exact Hc.
+Qed.
